@@ -260,7 +260,7 @@ theorem lt_iff [LT α] [DecidableRel (α := α) (· < ·)]
   rw [← this]
   cases ltLoop a.storage b.storage 0 (min a.size b.size) <;> simp
 
-/-! ### histories: sizes, capacity bound and the prefix that the interface defines -/
+/-! ### histories: the bounded vector as a (nondeterministic) abstract machine -/
 
 theorem step_inv {n : Nat} {s : State α} (h : Inv n s) (o : Op α) : Inv n (step n s o) := by
   unfold step
@@ -273,11 +273,127 @@ theorem step_inv {n : Nat} {s : State α} (h : Inv n s) (o : Op α) : Inv n (ste
     | resize k => exact (resize_refines h (by simpa [Op.ok] using hok)).1
     | set i x => exact (set_refines h i x).1
     | fill x => exact (fill_refines h x).1
+    | assignFrom o =>
+      simp only [Op.ok, Bool.and_eq_true, beq_iff_eq, decide_eq_true_eq] at hok
+      exact ⟨hok.1, hok.2⟩
   · simp only [hok, Bool.false_eq_true, if_false]; exact h
 
 theorem run_inv {n : Nat} (ops : List (Op α)) : ∀ {s : State α}, Inv n s → Inv n (run n s ops) := by
   induction ops with
   | nil => intro s h; exact h
   | cons o t ih => intro s h; exact ih (step_inv h o)
+
+/-- One step of the specification "a vector with capacity limit `n`" on plain lists.  Operations outside their
+    precondition leave the vector unchanged (they are skipped); `resize` beyond the current length appends elements
+    about which nothing is promised (`g` is arbitrary); `pop_back` on the empty vector does nothing. -/
+inductive SpecStep (n : Nat) : List α → Op α → List α → Prop where
+  | push {l : List α} {x : α} : l.length < n → SpecStep n l (.push x) (l ++ [x])
+  | pushFull {l : List α} {x : α} : ¬ l.length < n → SpecStep n l (.push x) l
+  | pop {l : List α} : SpecStep n l .pop l.dropLast
+  | clear {l : List α} : SpecStep n l .clear []
+  | shrink {l : List α} {k : Nat} : k ≤ l.length → SpecStep n l (.resize k) (l.take k)
+  | grow {l g : List α} {k : Nat} : l.length < k → k ≤ n → g.length = k - l.length → SpecStep n l (.resize k) (l ++ g)
+  | resizeBeyond {l : List α} {k : Nat} : ¬ k ≤ n → SpecStep n l (.resize k) l
+  | set {l : List α} {i : Nat} {x : α} : SpecStep n l (.set i x) (l.set i x)      -- `List.set` beyond the end is the identity
+  | fill {l : List α} {x : α} : SpecStep n l (.fill x) (List.replicate l.length x)
+  | assignFrom {l : List α} {o : State α} : Inv n o → SpecStep n l (.assignFrom o) (abs o)
+  | assignInvalid {l : List α} {o : State α} : ¬ Inv n o → SpecStep n l (.assignFrom o) l
+
+/-- a whole history on the specification -/
+inductive SpecRuns (n : Nat) : List α → List (Op α) → List α → Prop where
+  | nil {l : List α} : SpecRuns n l [] l
+  | cons {l l' l'' : List α} {o : Op α} {ops : List (Op α)} :
+      SpecStep n l o l' → SpecRuns n l' ops l'' → SpecRuns n l (o :: ops) l''
+
+/-- every run of the specification respects the capacity -/
+theorem SpecStep.length_le {n : Nat} {l l' : List α} {o : Op α} (h : SpecStep n l o l') (hl : l.length ≤ n) :
+    l'.length ≤ n := by
+  cases h with
+  | push h => simp; omega
+  | pushFull _ => exact hl
+  | pop => simp; omega
+  | clear => simp
+  | shrink h => simp; omega
+  | grow h1 h2 h3 => simp [h3]; omega
+  | resizeBeyond _ => exact hl
+  | set => simpa using hl
+  | fill => simpa using hl
+  | assignFrom ho => rw [abs_length ho]; exact ho.le
+  | assignInvalid _ => exact hl
+
+theorem step_spec {n : Nat} {s : State α} (h : Inv n s) (o : Op α) : SpecStep n (abs s) o (abs (step n s o)) := by
+  have hlen := abs_length h
+  cases o with
+  | push x =>
+    by_cases hs : s.size < n
+    · have e : step n s (.push x) = pushBack s x := by simp [step, Op.ok, hs]
+      rw [e, (pushBack_refines h hs x).2]
+      exact .push (by rw [hlen]; exact hs)
+    · have e : step n s (.push x) = s := by simp [step, Op.ok, hs]
+      rw [e]
+      exact .pushFull (by rw [hlen]; exact hs)
+  | pop =>
+    have e : step n s .pop = popBack s := by simp [step, Op.ok]
+    rw [e, (popBack_refines h).2]
+    exact .pop
+  | clear =>
+    have e : step n s .clear = RV.clear s := by simp [step, Op.ok]
+    rw [e, (clear_refines h).2]
+    exact .clear
+  | resize k =>
+    by_cases hk : k ≤ n
+    · have e : step n s (.resize k) = resize s k := by simp [step, Op.ok, hk]
+      rw [e]
+      by_cases hks : k ≤ s.size
+      · have : abs (resize s k) = (abs s).take k := by
+          simp only [abs, resize, List.take_take]
+          rw [Nat.min_eq_left hks]
+        rw [this]
+        exact .shrink (by rw [hlen]; exact hks)
+      · have hsl : s.size ≤ s.storage.length := by rw [h.len]; exact h.le
+        have : abs (resize s k) = abs s ++ (s.storage.drop s.size).take (k - s.size) := by
+          simp only [abs, resize]
+          have hk' : k = s.size + (k - s.size) := by omega
+          conv => lhs; rw [hk']
+          rw [List.take_add]
+        rw [this]
+        refine .grow (by rw [hlen]; omega) hk ?_
+        rw [hlen, List.length_take, List.length_drop, h.len]
+        omega
+    · have e : step n s (.resize k) = s := by simp [step, Op.ok, hk]
+      rw [e]
+      exact .resizeBeyond hk
+  | set i x =>
+    by_cases hi : i < s.size
+    · have e : step n s (.set i x) = RV.set s i x := by simp [step, Op.ok, hi]
+      rw [e, (set_refines h i x).2]
+      exact .set
+    · have e : step n s (.set i x) = s := by simp [step, Op.ok, hi]
+      rw [e]
+      have : abs s = (abs s).set i x := by rw [List.set_eq_of_length_le (by omega)]
+      conv => rhs; rw [this]
+      exact .set
+  | fill x =>
+    have e : step n s (.fill x) = RV.fill s x := by simp [step, Op.ok]
+    rw [e, (fill_refines h x).2, ← hlen]
+    exact .fill
+  | assignFrom o =>
+    by_cases ho : o.storage.length = n ∧ o.size ≤ n
+    · have e : step n s (.assignFrom o) = o := by simp [step, Op.ok, ho.1, ho.2]
+      rw [e]
+      exact .assignFrom ⟨ho.1, ho.2⟩
+    · have e : step n s (.assignFrom o) = s := by
+        simp only [step, Op.ok, Bool.and_eq_true, beq_iff_eq, decide_eq_true_eq]
+        rw [if_neg ho]
+      rw [e]
+      exact .assignInvalid (fun hi => ho ⟨hi.len, hi.le⟩)
+
+theorem run_spec {n : Nat} (ops : List (Op α)) : ∀ {s : State α}, Inv n s → SpecRuns n (abs s) ops (abs (run n s ops)) := by
+  induction ops with
+  | nil => intro s _; exact .nil
+  | cons o t ih =>
+    intro s h
+    simp only [run, List.foldl_cons]
+    exact .cons (step_spec h o) (ih (step_inv h o))
 
 end DV.C11.RV
